@@ -131,10 +131,11 @@ def interaction_matrix_unit():
     J = N.chain_matrix()
     impl, sd, cfg = N.make_impl(True)
     impl.well_prepared_qubits_filter = None
-    p = impl.qubit_permutation
-    got = impl._get_interaction_matrix()
-    if not torch.equal(got, J[p][:, p]):
-        return f"_get_interaction_matrix: not J[perm[i], perm[j]] for perm {p.tolist()}: {got.tolist()}"
+    for p in (impl.qubit_permutation, torch.tensor([1, 2, 3, 0])):      # the second is not an involution
+        impl.qubit_permutation = p
+        got = impl._get_interaction_matrix()
+        if not torch.equal(got, J[p][:, p]):
+            return f"_get_interaction_matrix: not J[perm[i], perm[j]] for perm {p.tolist()}: {got.tolist()}"
     return None
 
 
@@ -143,6 +144,8 @@ def initial_state_unit():
     from emu_mps import MPS
     import emu_mps.mps_backend_impl as M
     impl, sd, cfg = N.make_impl(True)
+    # a permutation that is not its own inverse (the optimiser's [3, 1, 2, 0] is an involution)
+    impl.qubit_permutation = torch.tensor([1, 2, 3, 0])
     perm = impl.qubit_permutation.tolist()
     impl.well_prepared_qubits_filter = None
     amps = {"rggg": 0.6, "ggrg": 0.8}
